@@ -34,18 +34,22 @@ func main() {
 	// ---- one-dimensional, exhaustive ----
 	exprs := allExprs()
 	doms := []*dom{domInt, domStr}
+	rec0 := g3lib.NewRec(r)
 	for _, d := range doms {
-		cutOrdering(r, ctx, d)
-		constructors(r, d)
+		cutOrdering(rec0, ctx, d)
+		constructors(rec0, d)
 		for _, w := range exprs {
-			colSingle(r, ctx, d, w)
+			colSingle(rec0, ctx, d, w)
 		}
 	}
+	rec0.Flush()
 	r.Parallel("colpairs", len(doms)*len(exprs), func(i int) {
+		rec := g3lib.NewRec(r)
+		defer rec.Flush()
 		d := doms[i/len(exprs)]
 		a := exprs[i%len(exprs)]
 		for _, b := range exprs {
-			colPair(r, ctx, d, a, b)
+			colPair(rec, ctx, d, a, b)
 		}
 	})
 	// one-column range sets of <= 2 ranges exhaustively (<= 3 in thorough): RemoveOverlappingRanges + SimplifyRangeColumn
@@ -54,6 +58,8 @@ func main() {
 		d := doms[i/len(exprs)]
 		a := exprs[i%len(exprs)]
 		g3lib.Guard(r, "smallsets", i, core.StmtTimeout, func() {
+			rec := g3lib.NewRec(r)
+			defer rec.Flush()
 			one := func(ws ...wexpr) {
 				s := &rset{doms: []*dom{d}}
 				for _, w := range ws {
@@ -61,8 +67,8 @@ func main() {
 					s.ranges = append(s.ranges, rg)
 					s.boxes = append(s.boxes, decodeRange(s.doms, rg))
 				}
-				checkROL(r, ctx, s, false)
-				simplify(r, ctx, d, ws)
+				checkROL(rec, ctx, s, false)
+				simplify(rec, ctx, d, ws)
 				atomic.AddInt64(&smallSets, 1)
 			}
 			one(a)
@@ -90,6 +96,8 @@ func main() {
 		nr := 1 + rnd.Intn(8)
 		s := genSet(rnd, ncols, nr)
 		ok := g3lib.Guard(r, "sets", i, core.StmtTimeout, func() {
+			r := g3lib.NewRec(r)
+			defer r.Flush()
 			checkROL(r, ctx, s, i < 3)
 			checkCollIntersect(r, ctx, s)
 			checkSort(r, ctx, s)
@@ -134,7 +142,11 @@ func main() {
 		ncols := 1 + rnd.Intn(3)
 		nops := 10 + rnd.Intn(40)
 		disjoint := i%5 != 4
-		if g3lib.Guard(r, "tree", i, core.StmtTimeout, func() { treeHistory(r, ctx, rnd, ncols, nops, disjoint) }) {
+		if g3lib.Guard(r, "tree", i, core.StmtTimeout, func() {
+			rec := g3lib.NewRec(r)
+			defer rec.Flush()
+			treeHistory(rec, ctx, rnd, ncols, nops, disjoint)
+		}) {
 			atomic.AddInt64(&hdone, 1)
 		}
 	})
@@ -164,7 +176,7 @@ func pinned(r *core.Run, ctx context.Context) {
 		s.ranges = append(s.ranges, rg)
 		s.boxes = append(s.boxes, decodeRange(s.doms, rg))
 	}
-	mode, wit := checkIntersectRanges(r, ctx, s)
+	mode, wit := checkIntersectRanges(g3lib.NewRec(r), ctx, s)
 	r.Pinned(intersectRangesSig, "IntersectRanges({[0,4]},{[2,8]}) returns {[0,4]} instead of {[2,4]}", "intersectranges:"+mode == intersectRangesSig, wit)
 
 	// (2) interval tree: MaxUpperbound under-estimated after a rotation (insert-only history, 3 columns)
